@@ -1376,7 +1376,7 @@ parser! {
     rule param_assignment() -> ParamAssignmentKind = not:(tok(TokenType::Not) {})? _ src:variable_name() _ tok(TokenType::RightArrow) _ tgt:variable() {
       ParamAssignmentKind::Output (
         Output{
-        not: false,
+        not: not.is_some(),
         src,
         tgt,
       })
